@@ -117,7 +117,7 @@ class Flwdir(object):
         self.cache = cache
         self._cached = dict()
         if area is not None:
-            self._cached.upate(area=area)
+            self._cached.update(area=area)
 
         # check validity
         if self.idxs_pit.size == 0:
